@@ -87,6 +87,8 @@ type Exec struct {
 	lastModel  map[string]*big.Int
 	initDone   map[*ssa.Package]bool
 	inInit     int
+	merging    int
+	mergeBase  int
 }
 
 type NdInput struct {
@@ -185,6 +187,9 @@ func (x *Exec) branch(c *Term) bool {
 	}
 	x.res.SymBranches++
 	taken := x.choose(func() []int {
+		if x.merging > 0 {
+			return []int{0, 1}
+		}
 		var o []int
 		tf := x.feasible(c)
 		if tf {
@@ -354,6 +359,15 @@ func (x *Exec) callFunction(fn *ssa.Function, args []Value, caller *frame) Value
 		// try synthetic wrappers
 		panic(x.unsupported("no body for " + fn.String()))
 	}
+	if x.eng.mergeable(fn) {
+		if r, ok := x.callMerged(fn, args, caller); ok {
+			return r
+		}
+	}
+	return x.callBody(fn, args, caller)
+}
+
+func (x *Exec) callBody(fn *ssa.Function, args []Value, caller *frame) Value {
 	x.depth++
 	if x.depth > 400 {
 		panic(pathEnd{Kind: "bound", Msg: "call depth > 400", Site: x.site()})
@@ -724,6 +738,9 @@ func (x *Exec) visit(fr *frame, instr ssa.Instruction) cont {
 }
 
 func (x *Exec) store(c *Cell, v Value) {
+	if x.merging > 0 && (c.A == nil || c.A.ID <= x.mergeBase) {
+		panic(mergeAbort{"store to pre-existing memory"})
+	}
 	if x.trackWrite {
 		x.writeLog = append(x.writeLog, c)
 	}
@@ -1125,6 +1142,9 @@ func (x *Exec) mapFind(m *Map, k Value) *MapEntry {
 }
 
 func (x *Exec) mapUpdate(m *Map, k, v Value) {
+	if x.merging > 0 && (m.A == nil || m.A.ID <= x.mergeBase) {
+		panic(mergeAbort{"map update of pre-existing map"})
+	}
 	if x.trackWrite {
 		x.mapWrites = append(x.mapWrites, m)
 	}
@@ -1138,6 +1158,9 @@ func (x *Exec) mapUpdate(m *Map, k, v Value) {
 func (x *Exec) mapDelete(m *Map, k Value) {
 	if m == nil {
 		return
+	}
+	if x.merging > 0 && (m.A == nil || m.A.ID <= x.mergeBase) {
+		panic(mergeAbort{"map delete in pre-existing map"})
 	}
 	if x.trackWrite {
 		x.mapWrites = append(x.mapWrites, m)
@@ -1188,6 +1211,9 @@ func (x *Exec) chanSend(ch *Chan, v Value, blocking bool) bool {
 			panic(pathEnd{Kind: "blocked", Msg: "send on nil channel", Site: x.site()})
 		}
 		return false
+	}
+	if x.merging > 0 {
+		panic(mergeAbort{"channel send"})
 	}
 	if ch.Closed {
 		x.goPanicf("send on closed channel")
